@@ -4,7 +4,7 @@
 set -u
 PATCH="$1"; TAG="$2"; shift 2
 S="/var/tmp/verif-seeded-eval/$TAG"; rm -rf "$S"; mkdir -p "$S"
-cp -r /repo/pymablock "$S/pymablock"; rm -rf "$S/pymablock/tests" "$S"/pymablock/__pycache__
+cp -r "${CLEAN_SRC:-/repo}/pymablock" "$S/pymablock"; rm -rf "$S/pymablock/tests" "$S"/pymablock/__pycache__
 ( cd "$S" && patch -p1 -s < "$PATCH" ) || { echo "PATCH FAILED"; exit 9; }
 for P in "$@"; do
   PYMABLOCK_SRC="$S" VERIF_EVIDENCE_DIR="$S/evidence" VERIF_REPLAY_DIR="$S/replays" VERIF_SHRINK_S=30 /verif/check "$P" --tier "${TIER:-quick}" > "$S/$P.log" 2>&1
